@@ -43,6 +43,18 @@ pub struct SubInst {
     pub closed_at: Option<u32>,
     /// MQTT 5 subscription identifier given in the SUBSCRIBE
     pub sub_id: Option<usize>,
+    /// every QoS this subscription had before a repeated SUBSCRIBE granted another one
+    pub past_qos: Vec<u8>,
+    /// (old QoS, packet id of the SUBSCRIBE that replaced it): forwards emitted before that
+    /// SUBSCRIBE was served may still be on their way, so the old QoS stays acceptable until
+    /// its SUBACK has been received on this connection
+    pub old_ok: Vec<(u8, u16)>,
+}
+
+impl SubInst {
+    fn serves(&self, qos: u8) -> bool {
+        self.qos == qos || self.old_ok.iter().any(|(o, _)| *o == qos)
+    }
 }
 
 #[derive(Clone, Debug, Default, Hash)]
@@ -330,6 +342,8 @@ impl Model {
                 .map(|j| c.frontier.iter().map(|p| p[j]).min().unwrap_or(0))
                 .collect();
             for (j, s) in c.subs.iter_mut().enumerate() {
+                // nothing emitted before a repeated SUBSCRIBE outlives the connection
+                s.old_ok.clear();
                 if !s.active {
                     continue;
                 }
@@ -484,7 +498,7 @@ impl Model {
                 let mut codes = vec![];
                 for (f, q) in filters {
                     codes.push(*q);
-                    self.subscribe(ci, f, *q);
+                    self.subscribe(ci, f, *q, *pkid);
                     // the subscription identifier belongs to the subscription (and with it
                     // to the session)
                     for s in self.clients[ci].subs.iter_mut().filter(|s| s.active && s.filter == *f) {
@@ -560,13 +574,22 @@ impl Model {
         self.end_connection(ci);
     }
 
-    fn subscribe(&mut self, ci: usize, f: &str, q: u8) {
+    fn subscribe(&mut self, ci: usize, f: &str, q: u8, pkid: u16) {
         let (group, mf) = split_share(f);
         // a shared subscription is identified by share name *and* filter (MQTT 5, 4.8.2):
         // `$share/g/t` and `$share/g/u` are two independent groups
         let group = group.map(|_| f.to_string());
-        if self.clients[ci].subs.iter().any(|s| s.active && s.filter == f) {
-            // repeating an existing subscription: nothing new (no retained replay)
+        if let Some(s) = self.clients[ci].subs.iter_mut().find(|s| s.active && s.filter == f) {
+            // repeating an existing subscription: nothing new (no retained replay), but the
+            // SUBACK grants the QoS of this SUBSCRIBE: it replaces the old one (MQTT-3.8.4-3)
+            if s.qos != q {
+                if !s.past_qos.contains(&s.qos) {
+                    s.past_qos.push(s.qos);
+                }
+                s.old_ok.push((s.qos, pkid));
+                s.past_qos.retain(|o| *o != q);
+                s.qos = q;
+            }
             return;
         }
         let mut retained_due = vec![];
@@ -600,6 +623,8 @@ impl Model {
             skip_to: 0,
             closed_at: None,
             sub_id: None,
+            past_qos: vec![],
+            old_ok: vec![],
         });
         for p in c.frontier.iter_mut() {
             p.push(0);
@@ -633,6 +658,12 @@ impl Model {
                 ..
             } => self.forward(ci, topic, *qos, *retain, *pkid, payload, props),
             Rx::PubAck(_) | Rx::PubRec(_) | Rx::PubComp(_) | Rx::SubAck { .. } | Rx::UnsubAck { .. } | Rx::PingResp | Rx::PubRel(_) => {
+                if let Rx::SubAck { pkid, .. } = rx {
+                    // what the router emits behind this SUBACK is served under the new grant
+                    for s in self.clients[ci].subs.iter_mut() {
+                        s.old_ok.retain(|(_, p)| p != pkid);
+                    }
+                }
                 self.reply(ci, rx)
             }
             Rx::Disconnect(_) => self.clients[ci].disconnect_notices += 1,
@@ -781,7 +812,7 @@ impl Model {
             let mut seen: HashSet<Vec<u32>> = HashSet::new();
             for pos in c.frontier.iter() {
                 for (j, s) in c.subs.iter().enumerate() {
-                    if s.group.is_some() || s.qos != qos {
+                    if s.group.is_some() || !s.serves(qos) {
                         continue;
                     }
                     let p = pos[j];
@@ -851,7 +882,7 @@ impl Model {
             .iter()
             .find(|s| {
                 s.group.is_some()
-                    && s.qos == qos
+                    && s.serves(qos)
                     && ref_matches(topic, &s.match_filter)
                     && (s.active || newest_undelivered.is_some_and(|i| s.closed_at.is_some_and(|c| i < c)))
             })
@@ -870,6 +901,34 @@ impl Model {
             .accepted
             .iter()
             .position(|m| m.topic == topic && m.payload == payload);
+        // the next owed message of a subscription, but at the QoS the subscription had before
+        // a repeated SUBSCRIBE was granted another one
+        let stale_qos: Option<(usize, String)> = {
+            let c = &self.clients[ci];
+            c.subs.iter().enumerate().find_map(|(j, s)| {
+                let next_owed = c.frontier.iter().any(|p| s.expect.get(p[j] as usize).is_some_and(|e| self.content_is(*e, topic, payload)));
+                (s.active && s.past_qos.contains(&qos) && next_owed)
+                    .then(|| (j, format!("{} (granted QoS {} by the repeated SUBSCRIBE, QoS {} before)", s.filter, s.qos, qos)))
+            })
+        };
+        if let Some((j, which)) = stale_qos {
+            let d = format!("{name} received {topic}:{} at QoS {qos} for its subscription {which}", String::from_utf8_lossy(payload));
+            self.v("resubscribe_qos_not_applied", d);
+            // the message counts as delivered through that subscription
+            let c = &self.clients[ci];
+            let mut next: Vec<Vec<u32>> = vec![];
+            for pos in c.frontier.iter() {
+                if c.subs[j].expect.get(pos[j] as usize).is_some_and(|e| self.content_is(*e, topic, payload)) {
+                    let mut n = pos.clone();
+                    n[j] += 1;
+                    if !next.contains(&n) {
+                        next.push(n);
+                    }
+                }
+            }
+            self.clients[ci].frontier = next;
+            return;
+        }
         let c = &self.clients[ci];
         let subs: Vec<String> = c
             .subs
@@ -1011,8 +1070,8 @@ impl Model {
                             format!("{} (q{}): {}/{} delivered", s.filter, s.qos, got, s.expect.len())
                         })
                         .collect();
-                    out.push((
-                        "undelivered".into(),
+                    out.push(self.shared_recode(
+                        "undelivered",
                         format!("{} idle broker, all acknowledged, but not everything arrived: {}", super::NAMES[ci], missing.join(", ")),
                     ));
                 }
